@@ -1,6 +1,7 @@
 import Rivaas.Gen.Lifecycle
 import Rivaas.Model.LifecycleSkel
 import Rivaas.Model.LifecycleWhole
+import Rivaas.Props.C09Whole
 /-
 C09 — the call order of `Start` / `StartTLS` / `StartMTLS` / `runServer` in the Go source, checked in the kernel.
 
@@ -47,6 +48,15 @@ theorem model_paths_present : modelPathsPresent skels 2 = true := by decide
     been entered the same holds by `pre_loop_obligation` / `loop_arms_obligation` (failure exits are `abortStartup; return`)
     and `goroutine_obligation` (the serving goroutine flushes before it signals readiness) -/
 theorem failed_entry_flushes_startup_logs : skels.entries.all (onAll entryFlushes) = true := by decide
+
+/-- **model ↔ source, in one statement**: every run of the lifecycle model (every scenario, both values of `race`) that does
+    not end in a hook panic follows a path shape whose call word is the word of an execution of the control flow
+    regenerated from the source of this run — and that execution ends in a `return` and is in the lifecycle language -/
+theorem model_runs_are_executions_of_the_source (sc : Rivaas.Lifecycle.Scenario) (race : Bool) (nHup : Nat) :
+    (Rivaas.Lifecycle.runSegs Rivaas.Lifecycle.current sc race).res = .panic ∨
+    ∃ p n o, Rivaas.C09.pathOfRes nHup (Rivaas.Lifecycle.runSegs Rivaas.Lifecycle.current sc race).res = some p ∧
+      o ∈ startOuts skels n ∧ word o = modelWord p ∧ inStartLang (word o) = true ∧ isRet o.fin = true :=
+  Rivaas.C09.model_run_is_an_execution skels whole_program_obligation model_paths_live (by decide) sc race nHup
 
 /-! ### shapes -/
 
